@@ -332,6 +332,11 @@ def check_one(P, stmts, shell, acc, origin, run_bash=True):
     except readers.NotInert as e:
         acc.count('constants_left_to_C07')
         return
+    except readers.TableInconsistent as e:
+        acc.count('disagreements_checked')
+        acc.violation(dict(base, sig='tables-inconsistent',
+                           what='the tables of the %s script contradict each other: %s' % (shell, e)))
+        return
     except readers.ReaderError as e:
         acc.inconclusive.append('reader (%s): %s' % (shell, e))
         return
